@@ -439,6 +439,47 @@ func main() {
 		trusted = append(trusted, usedContracts...)
 		assumptions := append([]string{}, ps.Assumptions...)
 		assumptions = append(assumptions, "integers are mathematical; overflow of + - * is a separate obligation where the overflow layer is on; lengths bounded by 2^48 (A-MEM)")
+		// what the contracts themselves leave unchecked: skipped obligation kinds, and the
+		// preconditions of the functions under contract (checked at every call site inside the
+		// verified set, assumed for callers outside it)
+		doneSet := map[string]bool{}
+		for _, f := range eng.funcsDone {
+			doneSet[f] = true
+		}
+		var skips, pres []string
+		preSeen := map[string]bool{}
+		for _, c := range db.Funcs {
+			short := shortPkg(c.Pkg) + "." + c.Func
+			if !doneSet[short] {
+				continue
+			}
+			if len(c.SkipKinds) > 0 {
+				var ks []string
+				for k := range c.SkipKinds {
+					ks = append(ks, k)
+				}
+				sort.Strings(ks)
+				skips = append(skips, short+": "+strings.Join(ks, " "))
+			}
+			for _, cl := range c.ClausesOf("requires") {
+				if cl.appliesTo(*prop) && !preSeen[cl.Text] {
+					preSeen[cl.Text] = true
+					pres = append(pres, cl.Text)
+				}
+			}
+		}
+		sort.Strings(skips)
+		sort.Strings(pres)
+		for _, sk := range skips {
+			assumptions = append(assumptions, "obligation kinds not generated by contract (skip): "+sk)
+		}
+		if len(pres) > 0 {
+			shown := pres
+			if len(shown) > 12 {
+				shown = shown[:12]
+			}
+			assumptions = append(assumptions, fmt.Sprintf("entry preconditions of the functions under contract (%d distinct; proved at every call site inside the verified set and, where a constructor is under contract, established by it; assumed for other callers): %s", len(pres), strings.Join(shown, " | ")))
+		}
 		var kfl []string
 		for n, k := range knownOpen {
 			kfl = append(kfl, n+": "+k.What)
